@@ -51,7 +51,32 @@ impl RandomProp for RoundTrip {
         })
     }
     fn cases(env: &Env) -> u64 {
-        env.n(13 * 400, 13 * 30_000)
+        env.n(13 * 2500, 13 * 100_000)
+    }
+}
+
+pub struct RoundTripLarge;
+
+impl Prop for RoundTripLarge {
+    type Case = FileCase;
+    fn name() -> &'static str {
+        "roundtrip-large"
+    }
+    fn rule() -> &'static str {
+        "proptest: the roundtrip oracle on LARGE files — 130-420 records of tiny shapes, or 1-3 shapes with 260-330 parts, or 1-3 shapes          with 70-300 points per part (so that thresholds on record, part and point counts are crossed); non-trivial: every case"
+    }
+    fn check(c: &FileCase, ctx: &mut Ctx) -> Result<(), Fail> {
+        ctx.nontrivial();
+        RoundTrip::check(c, ctx)
+    }
+}
+
+impl RandomProp for RoundTripLarge {
+    fn strategy(_env: &Env) -> BoxedStrategy<FileCase> {
+        large_file_case(true)
+    }
+    fn cases(env: &Env) -> u64 {
+        env.n(13 * 6, 13 * 400)
     }
 }
 
@@ -111,7 +136,7 @@ where
     let expect: Vec<Geom> = written.iter().map(expected_after_read).collect();
     let n = expect.len();
     let cap = n + 4;
-    let (shp, shx) = match write_bytes(&shapes, true, c.fin) {
+    let (shp, shx) = match write_bytes_fins(&shapes, true, c.fin, c.mid_fins) {
         Ok(x) => x,
         Err(e) => fail!("write-error", "{}", e),
     };
@@ -190,9 +215,14 @@ where
                     }
                 }
                 f => {
-                    for s in &shapes {
+                    for (i, s) in shapes.iter().enumerate() {
                         if let Err(e) = w.write_shape(s) {
                             fail!("write-error", "disk write_shape: {}", err_str(&e));
+                        }
+                        if c.mid_fins & (1 << (i % 32)) != 0 {
+                            if let Err(e) = w.finalize() {
+                                fail!("write-error", "disk finalize after #{}: {}", i, err_str(&e));
+                            }
                         }
                     }
                     if f == Finish::FinalizeDrop {
